@@ -91,8 +91,20 @@ def rule_print(ctx, py):
               R, f, f._qual, "factor = base label + str(int exponent), exponent 1 omitted", "", "factor format changed")
     ctx.check("out+='.'" in src, R, f, f._qual, "factors joined by '.'", "a separator the parser accepts", "joined by "
               "something the parser does not split on")
+    rule_value_str(ctx, py, R)
+    h = py.fn("units.parse_unitvalue")
+    src = pyfe.src(h).replace(" ", "")
+    ctx.check("tok=s.split()" in src and "value=float(tok[0])" in src, R, h, h._qual, "first blank-separated token is "
+              "the number (float)", "", "")
+    ctx.floor(R, 6)
+
+
+def rule_value_str(ctx, py, R):
+    """str(UnitValue) = shortest round-trip text of the number, a blank, the units text (also the serialisation format of
+    every quantity stored in a dictionary / JSON file: shared with C12)"""
+    from .. import pysym
     g = py.fn("units.UnitValue.__str__")
-    r = g.body[-1]
+    rets = [x for x in ast.walk(g) if isinstance(x, ast.Return) and x.value is not None]
     parts = []
 
     def flat(e):
@@ -101,17 +113,19 @@ def rule_print(ctx, py):
             flat(e.right)
         else:
             parts.append(e)
-    if isinstance(r, ast.Return):
-        flat(r.value)
-    okk = len(parts) == 3 and pyfe.src(parts[0]) == "str(self.value)" and isinstance(parts[1], ast.Constant) and \
-        parts[1].value.strip() == "" and len(parts[1].value) >= 1 and pyfe.src(parts[2]) in ("self.units.__str__()", "str(self.units)")
+    if len(rets) == 1:
+        flat(pysym.inline(rets[0].value, g))
+    num_ok = len(parts) == 3 and pyfe.src(parts[0]) in ("str(self.value)", "repr(self.value)", "str(self._value)",
+                                                         "repr(self._value)")
+    okk = len(parts) == 3 and isinstance(parts[1], ast.Constant) and isinstance(parts[1].value, str) and \
+        parts[1].value.strip() == "" and len(parts[1].value) >= 1 and pyfe.src(parts[2]) in (
+            "self.units.__str__()", "str(self.units)", "self._units.__str__()", "str(self._units)")
     ctx.check(okk, R, g, g._qual, "value, blank, units", "what parse_unitvalue splits on",
               "value not separated from its unit by a blank")
-    h = py.fn("units.parse_unitvalue")
-    src = pyfe.src(h).replace(" ", "")
-    ctx.check("tok=s.split()" in src and "value=float(tok[0])" in src, R, h, h._qual, "first blank-separated token is "
-              "the number (float)", "", "")
-    ctx.floor(R, 5)
+    ctx.check(num_ok, R, rets[0] if rets else g, g._qual, "number printed as %s" % (pyfe.src(parts[0])[:60] if parts else "?"),
+              "str / repr of the float: the shortest text that parses back to the same float",
+              "the number is printed as `%s`, not as str(self.value): digits are lost (rounding, fixed precision), the printed "
+              "quantity does not parse back to the same value" % (pyfe.src(parts[0])[:80] if parts else "?"))
 
 
 def rule_samebase(ctx, py):
